@@ -36,6 +36,11 @@ def isFenced (kids : List T) : Bool :=
 /-- principal operator of a row: the operator all siblings share (for a fenced row: none — it acts as an operand) -/
 def principal (kids : List T) : Option Op := if isFenced kids then none else (rowOps kids).head?
 
+/-- clause (d), as the checker tests it: some child and its right neighbour are both operands -/
+def adjacentOperands (kids : List T) : Bool :=
+  (List.range (kids.length - 1)).any (fun i => match kids[i]?, kids[i+1]? with
+    | some x, some y => !isOpLeaf x && !isOpLeaf y | _, _ => false)
+
 mutual
 /-- list of violated clauses, with a short description -/
 def violations : T → List String
@@ -49,8 +54,7 @@ def violations : T → List String
       | [] => []
       | o :: rest => if rest.all (fun p => p.prio = o.prio || isNary p o) then [] else ["(a) operators of different precedence side by side in one row"]
     -- (d) no two adjacent operands
-    let d := if (List.range (kids.length - 1)).any (fun i => match kids[i]?, kids[i+1]? with
-                 | some x, some y => !isOpLeaf x && !isOpLeaf y | _, _ => false) then ["(d) adjacent operands without an operator"] else []
+    let d := if adjacentOperands kids then ["(d) adjacent operands without an operator"] else []
     -- (b) a nested infix/postfix row binds at least as tightly as this row's operator; prefix rows are unrestricted
     let b := match (if isFenced kids then none else ops.head?) with
       | none => []
@@ -66,5 +70,25 @@ def violationsL : List T → List String
 end
 
 def bracketed (t : T) : Bool := (violations t).isEmpty
+
+/-! ### clause (d) as a structural predicate (the form `MC.Props.C03Sep.parseRow_operands_separated` is stated in) -/
+
+/-- no two neighbouring children are both operands -/
+def noAdj : List T → Bool
+  | x :: y :: r => (isOpLeaf x || isOpLeaf y) && noAdj (y :: r)
+  | _ => true
+
+mutual
+/-- every row of the tree, at any depth, keeps its operands apart -/
+def Separated : T → Bool
+  | .row kids => noAdj kids && SeparatedL kids
+  | _ => true
+def SeparatedL : List T → Bool
+  | [] => true
+  | k :: ks => Separated k && SeparatedL ks
+end
+
+/-- does the checker report clause (d) anywhere in the tree? -/
+def reportsD (t : T) : Bool := (violations t).any (fun v => v.startsWith "(d)")
 
 end MC.Spec.Rows
